@@ -16,6 +16,9 @@ if ! go build -tags verif -o "$B/vp" ./cmd/vp 2>"$B/build.log"; then
 fi
 case "${1:-}" in
   setup)
+    # warm the build cache for the variants the checks build themselves (race detector, CLI)
+    go build -race -tags verif -o "$B/vp-race" ./cmd/vp >/dev/null 2>&1
+    (cd /repo && go build -o "$B/ion-go-cli" ./cmd/ion-go >/dev/null 2>&1)
     "$B/vp" selfcheck; exit $? ;;
   selfcheck)
     "$B/vp" selfcheck; exit $? ;;
